@@ -9,6 +9,17 @@ import TantivyModel.Proofs.TermInfoStore
 import TantivyModel.Proofs.BitPacker4x
 import TantivyModel.Proofs.BlockCursor
 import TantivyModel.Proofs.Pipeline
+import TantivyModel.Proofs.JsonPositions
+import TantivyModel.Proofs.RecorderRemap
+import TantivyModel.Proofs.BlockCursorDrain
+import TantivyModel.Proofs.PositionReader
+import TantivyModel.Proofs.PositionsAfterSeeks
+import TantivyModel.Proofs.FieldSerializer
+import TantivyModel.Proofs.VInt32Source
+import TantivyModel.Proofs.BlockCursorSeek
+import TantivyModel.Proofs.RemapPermuted
+import TantivyModel.Proofs.SegmentEndToEnd
+import TantivyModel.Proofs.Expull
 /-!
 # C07 — The inverted index records exactly the terms, documents, frequencies, positions
 
@@ -62,6 +73,27 @@ theorem C07_vint_u32_roundtrip (v : Nat) (hv : v < 2 ^ 32) (rest : List Nat) :
   intro b hb'
   have := VInt.enc_bytes_lt 128 (by omega) v b hb'
   omega
+
+/-- **`serialize_vint_u32`, the source text.**  `Gen.Postings.serialize_vint_u32_packed` is the
+mechanical translation (`extract/rs2lean.py`, `u32`/`u64` as bit vectors, `& | <<` as the bit-vector
+operations) of the function's `(res, num_bytes)` expression — the five-branch ladder with its masks
+and shifts as written in `common/src/vint.rs`.  For **every** `u32` the first `num_bytes`
+little-endian bytes of `res` are the bytes of the model's ladder, i.e. the VInt of the value, and
+`read_u32_vint` reads the value and the length back, whatever follows. -/
+theorem C07_vint_u32_source (val : BitVec 32) (rest : List Nat) :
+    VInt.packedBytes val = VInt.enc 128 val.toNat ∧
+    VInt.readU32 Gen.Postings.VINT_STOP_BIT Gen.Postings.VINT32_MAX_LEN (VInt.packedBytes val ++ rest) =
+      some (val.toNat, (VInt.packedBytes val).length) ∧
+    1 ≤ (VInt.packedBytes val).length ∧ (VInt.packedBytes val).length ≤ 5 := by
+  have h1 := VInt.packedBytes_eq_model val
+  have h2 := VInt.serializeU32_eq_enc val.toNat val.isLt
+  have he : VInt.packedBytes val = VInt.enc 128 val.toNat := by rw [h1]; exact h2
+  have h3 := C07_vint_u32_roundtrip val.toNat val.isLt rest
+  simp only at h3
+  have h1' : VInt.serializeU32 Gen.Postings.VINT32_LADDER Gen.Postings.VINT32_LAST_BYTES
+      Gen.Postings.VINT32_RADIX Gen.Postings.VINT32_STOP_BIT val.toNat = VInt.packedBytes val := h1.symm
+  rw [h1'] at h3
+  exact ⟨he, h3.1, h3.2.1, h3.2.2.1⟩
 
 /-- lists of VInts (the tail of a posting list, the tail of a position stream) -/
 theorem C07_vint_list_roundtrip (S : Nat) (hS : 2 ≤ S) (vs rest : List Nat) :
@@ -193,6 +225,7 @@ theorem C07_invert_pipeline (o : RecOpt) (c : Corpus) (G : Recorder.GoodCorpus c
       Recorder.readBack o (Recorder.serializeTerm o r) = some (e.2.map (project o))) ∧
     (Recorder.indexCorpus o c).totalNumTokens = (invert c).totalNumTokens ∧
     c.map (fun d => FieldNorm.fieldnormId (Recorder.docTokenCount o d)) = fieldnormIds (invert c) := by
+  have _tie : Gen.Postings.INDEX_TEXT_SHAPE_OK = 1 := by decide
   have hmap : (invert c).terms.map (·.1) = termsOf Gen.Postings.POSITION_GAP c := by
     simp [invert, invertWith, Function.comp_def]
   refine ⟨fun t => by rw [hmap]; exact Recorder.table_keys o c t, ?_, Recorder.indexCorpus_total o c, ?_⟩
@@ -204,6 +237,113 @@ theorem C07_invert_pipeline (o : RecOpt) (c : Corpus) (G : Recorder.GoodCorpus c
     apply List.map_congr_left
     intro d _
     simp [Recorder.docTokenCount_eq]
+
+/-- **The `doc_id_map` branch (index sorting).**  For the recorder of any term (any of the three
+recorders), `Recorder::serialize(.., Some(doc_id_map), ..)` — decode the stream in the *old* id
+space (deltas are accumulated there), map every doc id with `get_new_doc_id`, sort by the new id —
+hands the serializer exactly the term's postings with their doc id mapped and tf / positions
+staying with their document, in strictly increasing new-id order; and reading the serialized
+bytes back returns that list (as visible under the record option).  `newId` only needs to be
+injective on the term's documents and stay below TERMINATED. -/
+theorem C07_recorder_remap (o : RecOpt) (c : Corpus) (G : Recorder.GoodCorpus c) (t : Term)
+    (ht : t ∈ (invert c).terms.map (·.1)) (newId : Nat → Nat)
+    (hinj : (((postingsOf Gen.Postings.POSITION_GAP c t).map (Recorder.remapPosting newId)).map (·.doc)).Nodup)
+    (hbelow : ∀ p ∈ postingsOf Gen.Postings.POSITION_GAP c t, newId p.doc < Gen.Postings.TERMINATED) :
+    ∃ r, (Recorder.indexCorpus o c).table t = some r ∧
+      Recorder.readBack o (Recorder.serializeTermRemapped o r newId) =
+        some ((Recorder.sortPostings ((postingsOf Gen.Postings.POSITION_GAP c t).map
+          (Recorder.remapPosting newId))).map (project o)) ∧
+      ((Recorder.sortPostings ((postingsOf Gen.Postings.POSITION_GAP c t).map
+          (Recorder.remapPosting newId))).map (·.doc)).Pairwise (· < ·) ∧
+      (∀ x, x ∈ Recorder.sortPostings ((postingsOf Gen.Postings.POSITION_GAP c t).map
+          (Recorder.remapPosting newId)) ↔
+        ∃ p ∈ postingsOf Gen.Postings.POSITION_GAP c t, x = Recorder.remapPosting newId p) := by
+  have hmap : (invert c).terms.map (·.1) = termsOf Gen.Postings.POSITION_GAP c := by
+    simp [invert, invertWith, Function.comp_def]
+  rw [hmap] at ht
+  have hne : postingsOf Gen.Postings.POSITION_GAP c t ≠ [] :=
+    (Recorder.postingsFrom_ne_nil_iff _ t c 0).mpr ((mem_termsOf _ c t).mp ht)
+  obtain ⟨r, h1, _, h3, h4, h5⟩ := Recorder.remapped_pipeline o _ newId hne
+    (Recorder.termOK_of_goodCorpus c G t) hinj hbelow
+  exact ⟨r, by rw [Recorder.indexCorpus_table, h1], h3, h4, h5⟩
+
+/-- **Index sorting = inverting the re-ordered corpus.**  With `doc_id_map` a permutation of the
+segment's documents (`newId` / `oldId` are `DocIdMapping`'s two arrays, inverse to each other),
+the remapped branch of `Recorder::serialize` — per term: remap every doc id, sort by the new id,
+serialize — produces, read back, exactly `invert` of the corpus in its new document order: the
+same terms, and for every term the postings (docs, term frequencies, positions as visible under
+the record option) of the permuted corpus. -/
+theorem C07_remap_is_invert_of_permuted (o : RecOpt) (c : Corpus) (G : Recorder.GoodCorpus c)
+    (newId oldId : Nat → Nat)
+    (h1 : ∀ i, i < c.length → newId i < c.length ∧ oldId (newId i) = i)
+    (h2 : ∀ j, j < c.length → oldId j < c.length ∧ newId (oldId j) = j) :
+    (invert (Recorder.permuted c oldId)).terms.map (·.1) = (invert c).terms.map (·.1) ∧
+    ∀ e ∈ (invert (Recorder.permuted c oldId)).terms, ∃ r,
+      (Recorder.indexCorpus o c).table e.1 = some r ∧
+      Recorder.readBack o (Recorder.serializeTermRemapped o r newId) = some (e.2.map (project o)) := by
+  have hmap : ∀ c' : Corpus, (invert c').terms.map (·.1) = termsOf Gen.Postings.POSITION_GAP c' := by
+    intro c'; simp [invert, invertWith, Function.comp_def]
+  have hterms := Recorder.termsOf_permuted Gen.Postings.POSITION_GAP c newId oldId h1 h2
+  refine ⟨by rw [hmap, hmap, hterms], ?_⟩
+  intro e he
+  simp only [invert, invertWith, List.mem_map] at he
+  obtain ⟨t, ht, rfl⟩ := he
+  rw [hterms] at ht
+  have hspec := postingsFrom_spec Gen.Postings.POSITION_GAP t 0 c
+  obtain ⟨r, hr, hback, _, _⟩ := C07_recorder_remap o c G t (by rw [hmap]; exact ht) newId
+    (Recorder.remap_nodup _ t c newId oldId h1)
+    (fun p hp => by
+      have := (hspec.2 p hp).2.1
+      have := (h1 p.doc (by omega)).1
+      have := G.docs
+      omega)
+  exact ⟨r, hr, by rw [hback, Recorder.remap_eq_permuted _ t c newId oldId h1 h2]⟩
+
+/-! ### JSON fields: per-path positions -/
+
+/-- **Per path, a JSON field is a multi-valued text field.**  For one (document, JSON field) —
+the position map starts empty for each, as the extracted guard on `index_document` records — the
+text occurrences of any path `p` are exactly `docOccs` of the list of `p`'s text leaves in
+traversal order (same `index_text` arithmetic, same position gap), whatever other paths and typed
+leaves are interleaved; typed leaves (numbers, bools, dates) are subscribed at position 0. -/
+theorem C07_json_positions_per_path (p : Term) (evs : List JsonPositions.JEvent) :
+    (((JsonPositions.occs Gen.Postings.POSITION_GAP evs).filter (fun o => o.text ∧ o.path = p)).map
+        (fun o => (o.term, o.pos)) =
+      docOccs Gen.Postings.POSITION_GAP (JsonPositions.pathValues p evs)) ∧
+    (∀ o ∈ JsonPositions.occs Gen.Postings.POSITION_GAP evs, o.text = false → o.pos = 0) := by
+  have _tie : Gen.Postings.JSON_POSITIONS_CLEARED_PER_FIELD = 1 ∧ Gen.Postings.INDEX_TEXT_SHAPE_OK = 1 := by
+    decide
+  exact ⟨JsonPositions.occsFrom_path _ p evs (fun _ => 0),
+    JsonPositions.occsFrom_nontext_pos _ evs (fun _ => 0)⟩
+
+/-- **Consecutive values are separated by the gap** (text fields and, by the theorem above, the
+leaves of one JSON path): in `A ++ v :: B` every token of `v` is indexed at
+`endAfter A + token.pos`, and every occurrence of every later value lies beyond it by at least the
+token's position length plus `gap` — so a phrase cannot span two values when `gap ≥ 1`. -/
+theorem C07_values_gap_separated (gap e : Nat) (A : List Value) (v : Value) (B : List Value) :
+    docOccsFrom gap e (A ++ v :: B) =
+      docOccsFrom gap e A ++ v.map (fun t => (t.term, JsonPositions.endAfter gap e A + t.pos)) ++
+        docOccsFrom gap (indexValue gap (JsonPositions.endAfter gap e A) v).2 B ∧
+    ∀ t ∈ v, ∀ o ∈ docOccsFrom gap (indexValue gap (JsonPositions.endAfter gap e A) v).2 B,
+      JsonPositions.endAfter gap e A + t.pos + t.posLen + gap ≤ o.2 :=
+  JsonPositions.values_gap_separated gap e A v B
+
+/-- **JSON fields through the pipeline.**  With the occurrences positioned per path (`asDoc`), the
+recorder → serializer → decoder pipeline returns, for every term of the JSON field, the postings
+of `invertJson`: text terms through the recorder of the field's option, typed leaves (numbers,
+bools, dates) through the doc-id-only recorder of the second postings writer. -/
+theorem C07_json_pipeline (o : RecOpt) (c : List (List JsonPositions.JEvent))
+    (G : Recorder.GoodCorpus (c.map (JsonPositions.asDoc Gen.Postings.POSITION_GAP))) :
+    ∀ e ∈ (JsonPositions.invertJson o c).1, ∃ o' r,
+      o' = (if (c.flatMap JsonPositions.nonTextTerms).contains e.1 then RecOpt.basic else o) ∧
+      (Recorder.indexCorpus o' (c.map (JsonPositions.asDoc Gen.Postings.POSITION_GAP))).table e.1 = some r ∧
+      Recorder.readBack o' (Recorder.serializeTerm o' r) = some e.2 := by
+  intro e he
+  simp only [JsonPositions.invertJson, List.mem_map] at he
+  obtain ⟨e0, he0, rfl⟩ := he
+  obtain ⟨r, h1, _, h3⟩ := (C07_invert_pipeline
+    (if (c.flatMap JsonPositions.nonTextTerms).contains e0.1 then RecOpt.basic else o) _ G).2.1 e0 he0
+  exact ⟨(if (c.flatMap JsonPositions.nonTextTerms).contains e0.1 then RecOpt.basic else o), r, rfl, h1, h3⟩
 
 /-! ### recycled block cursor -/
 
@@ -227,6 +367,111 @@ theorem C07_reset_equiv_open (c : Cfg) (o req : RecOpt) (p : BlockPostings) (doc
   have h := reset_eq_open c o req p docFreq bytes hskip hfreq
   exact ⟨h, fun fuel => drain_docs_congr c fuel _ _ h, fun s data => SkipReader.reset_eq_new c s data docFreq⟩
 
+/-- **The lazy cursor reads the list** (lazy `SkipReader` / `BlockSegmentPostings` model ≡ the
+eager decoder on encoded input): a block cursor opened on the bytes `PostingsSerializer` writes for
+a posting list — skip reader walking entry by entry, `byte_offset` accumulated from the bit widths,
+each block decoded against `last_doc_in_previous_block` — drained block after block yields exactly
+the docs; and so does a *recycled* cursor, whatever it had read before (this is the end-to-end
+statement seeded mutant B violated). -/
+theorem C07_lazy_cursor_drains (o : RecOpt) (docs tfs : List Nat) (hv : ValidList docs tfs) :
+    (BlockPostings.drain cfg (docs.length / cfg.B + 2)
+      (BlockPostings.open cfg o o docs.length (encodeTerm cfg o docs tfs))).1 = docs ∧
+    ∀ p : BlockPostings, p.skip.skipInfo = o → p.freqOpt = freqOptOf o o →
+      (BlockPostings.drain cfg (docs.length / cfg.B + 2)
+        (p.reset cfg docs.length (encodeTerm cfg o docs tfs))).1 = docs := by
+  have hopen := drain_open_encode cfg o (by decide) (by decide) (by decide) C07_bp4x_good docs tfs hv
+  refine ⟨hopen, fun p hskip hfreq => ?_⟩
+  have heff : effectiveOpt cfg o docs.length (splitSkips cfg docs.length (encodeTerm cfg o docs tfs)).1 = o := by
+    rw [splitSkips_encodeTerm cfg o (by decide)]
+    exact effectiveOpt_encodeTerm cfg o docs tfs
+  have h := (C07_reset_equiv_open cfg o o p docs.length (encodeTerm cfg o docs tfs)
+    (by rw [heff]; exact hskip) (by rw [heff]; exact hfreq)).2.1 (docs.length / cfg.B + 2)
+  rw [h]; exact hopen
+
+/-- … and the term frequencies: when the option stores them, the freshly opened and the recycled
+lazy cursor both show exactly the list's frequencies, block after block -/
+theorem C07_lazy_cursor_freqs (o : RecOpt) (ho : hasFreq o = true) (docs tfs : List Nat)
+    (hv : ValidList docs tfs) :
+    (BlockPostings.drain cfg (docs.length / cfg.B + 2)
+      (BlockPostings.open cfg o o docs.length (encodeTerm cfg o docs tfs))).2 = tfs ∧
+    ∀ p : BlockPostings, p.skip.skipInfo = o → p.freqOpt = .readFreq →
+      (BlockPostings.drain cfg (docs.length / cfg.B + 2)
+        (p.reset cfg docs.length (encodeTerm cfg o docs tfs))).2 = tfs :=
+  ⟨drain_open_encode_tfs cfg o ho (by decide) (by decide) (by decide) C07_bp4x_good docs tfs hv,
+   fun p hs hf => drain_reset_encode_tfs cfg o ho (by decide) (by decide) (by decide) C07_bp4x_good
+     docs tfs hv p hs hf⟩
+
+/-- **The lazy cursor's seek.** `BlockSegmentPostings::seek` on the bytes `PostingsSerializer` writes
+— the skip reader stepping entry by entry while `last_doc_in_block < target` (byte offset and
+`last_doc_in_previous_block` carried along), `load_block` decoding only the block it stops on, the
+in-block search on the `TERMINATED`-padded buffer — lands on the first doc `≥ target` of the list
+(`TERMINATED` if there is none), at an index below the block size; for a freshly opened cursor and
+for a recycled one, whatever it had read before. -/
+theorem C07_lazy_seek (o : RecOpt) (docs tfs : List Nat) (hv : ValidList docs tfs)
+    (hT : ∀ d ∈ docs, d < cfg.T) (target : Nat) (ht : target ≤ cfg.T) :
+    (let r := (BlockPostings.open cfg o o docs.length (encodeTerm cfg o docs tfs)).seek cfg target
+     r.1.docBuf.getD r.2 cfg.T = docs.getD (docs.countP (· < target)) cfg.T ∧ r.2 < cfg.B) ∧
+    ∀ p : BlockPostings, p.skip.skipInfo = o → p.freqOpt = freqOptOf o o →
+      (let r := (p.reset cfg docs.length (encodeTerm cfg o docs tfs)).seek cfg target
+       r.1.docBuf.getD r.2 cfg.T = docs.getD (docs.countP (· < target)) cfg.T ∧ r.2 < cfg.B) := by
+  have key : ∀ q : BlockPostings, LazyAt cfg o docs tfs 0 q →
+      (q.seek cfg target).1.docBuf.getD (q.seek cfg target).2 cfg.T =
+        docs.getD (docs.countP (· < target)) cfg.T ∧ (q.seek cfg target).2 < cfg.B := by
+    intro q hq
+    have h := seekAll_lazyAt o docs tfs hv hT [target] 0 q hq (Nat.zero_le _) (by simp)
+      (by simpa using ht) (by simp)
+    obtain ⟨_, _, _, _, _, _, hlt, _⟩ := seek_lazyAt o docs tfs hv hT target ht 0 q hq
+    simp only [BlockPostings.seekAll, List.map_cons, List.map_nil, List.cons.injEq, and_true] at h
+    exact ⟨h, hlt⟩
+  exact ⟨key _ (open_lazyAt cfg o (by decide) (by decide) docs tfs hv),
+    fun p hs hf => key _ (reset_lazyAt o docs tfs hv p hs hf)⟩
+
+/-- … and the term frequency: when the option stores frequencies and some doc is `≥ target`, the
+frequency buffer shows at the returned index the term frequency of the doc the seek landed on —
+for the freshly opened and for the recycled cursor. -/
+theorem C07_lazy_seek_freq (o : RecOpt) (ho : hasFreq o = true) (docs tfs : List Nat)
+    (hv : ValidList docs tfs) (hT : ∀ d ∈ docs, d < cfg.T) (target : Nat) (ht : target ≤ cfg.T)
+    (hrank : docs.countP (· < target) < docs.length) :
+    (let r := (BlockPostings.open cfg o o docs.length (encodeTerm cfg o docs tfs)).seek cfg target
+     r.1.freqs.getD r.2 0 = tfs.getD (docs.countP (· < target)) 0) ∧
+    ∀ p : BlockPostings, p.skip.skipInfo = o → p.freqOpt = .readFreq →
+      (let r := (p.reset cfg docs.length (encodeTerm cfg o docs tfs)).seek cfg target
+       r.1.freqs.getD r.2 0 = tfs.getD (docs.countP (· < target)) 0) := by
+  have hfo : freqOptOf o o = .readFreq := by cases o <;> simp_all [freqOptOf, hasFreq]
+  refine ⟨seek_lazyAt_freq o ho docs tfs hv hT target ht 0 _
+      (open_lazyAt cfg o (by decide) (by decide) docs tfs hv)
+      (open_freqsAt cfg o ho (by decide) docs tfs) (by simp) hrank, fun p hs hf => ?_⟩
+  exact seek_lazyAt_freq o ho docs tfs hv hT target ht 0 _
+    (reset_lazyAt o docs tfs hv p hs (by rw [hfo]; exact hf))
+    (reset_freqsAt cfg p _ _ hf) (by simp) hrank
+
+/-- **A program of seeks on the lazy cursor** (non-decreasing targets, the `DocSet` contract): every
+seek of the program — each continuing from the block the previous one stopped on, without
+re-decoding when the skip reader did not move — lands on the first doc `≥` its target. -/
+theorem C07_lazy_seek_program (o : RecOpt) (docs tfs : List Nat) (hv : ValidList docs tfs)
+    (hT : ∀ d ∈ docs, d < cfg.T) (ts : List Nat) (hs : ts.Pairwise (· ≤ ·)) (hts : ∀ t ∈ ts, t ≤ cfg.T) :
+    BlockPostings.seekAll cfg (BlockPostings.open cfg o o docs.length (encodeTerm cfg o docs tfs)) ts =
+      ts.map (fun t => docs.getD (docs.countP (· < t)) cfg.T) :=
+  seekAll_lazyAt o docs tfs hv hT ts 0 _ (open_lazyAt cfg o (by decide) (by decide) docs tfs hv)
+    (Nat.zero_le _) hs hts (by simp)
+
+/-- **Block-level programs of the lazy cursor.**  Any program of `BlockSegmentPostings::advance`
+(out of a full block) and `seek` — in any order, with any targets up to TERMINATED, forwards or
+backwards — on the bytes of a posting list shows exactly what the *doc list* prescribes: `advance`
+moves the block start `n` to `n + 128` and shows `docs[n + 128]`; `seek(t)` steps over the full
+blocks whose last doc is `< t` (`landing`) and shows the first doc `≥ t` from that block's start
+on (TERMINATED if none).  For a freshly opened and for a recycled cursor. -/
+theorem C07_lazy_block_programs (o : RecOpt) (docs tfs : List Nat) (hv : ValidList docs tfs)
+    (hT : ∀ d ∈ docs, d < cfg.T) (ops : List BOp)
+    (hok : okBlockOps cfg.B cfg.T docs (docs.length / cfg.B + 2) 0 ops) :
+    BlockPostings.runOps cfg (BlockPostings.open cfg o o docs.length (encodeTerm cfg o docs tfs)) ops =
+      specBlockOps cfg.B cfg.T docs (docs.length / cfg.B + 2) 0 ops ∧
+    ∀ p : BlockPostings, p.skip.skipInfo = o → p.freqOpt = freqOptOf o o →
+      BlockPostings.runOps cfg (p.reset cfg docs.length (encodeTerm cfg o docs tfs)) ops =
+        specBlockOps cfg.B cfg.T docs (docs.length / cfg.B + 2) 0 ops :=
+  ⟨runOps_lazyAt o docs tfs hv hT ops 0 _ (open_lazyAt cfg o (by decide) (by decide) docs tfs hv) hok,
+   fun p hs hf => runOps_lazyAt o docs tfs hv hT ops 0 _ (reset_lazyAt o docs tfs hv p hs hf) hok⟩
+
 /-! ### TermInfoStore -/
 
 /-- **TermInfoStore round trip.** For every list of TermInfos whose ranges are ordered, below `2^56`
@@ -247,6 +492,211 @@ theorem C07_extract_bits_field (pre : List (Nat × Nat)) (v w : Nat) (post : Lis
     TermInfoStore.extractBits (TermInfoStore.bitBytes (pre ++ (v, w) :: post) ++ rest)
       (TermInfoStore.totalBits pre) w = v :=
   TermInfoStore.extractBits_field pre v w post hall hw rest hrest
+
+/-- **The stateful `PositionReader`.**  Open a reader on the bytes `PositionSerializer` writes for
+a term's position stream `D` and issue *any* sequence of `read(offset, len)` calls on it — forwards,
+backwards (reset), inside the loaded block, across many blocks, into the VInt tail — each within
+the stream: every call returns exactly `D[offset .. offset+len)`.  The model keeps the reader's
+state (bit widths and bytes from the anchor block, the decoded block and its `block_offset`,
+skipping whole blocks by the sum of their widths). -/
+theorem C07_position_reader (D : List Nat) (rs : List (Nat × Nat))
+    (hr : ∀ r ∈ rs, r.1 + r.2 ≤ D.length) :
+    ∃ s, Positions.Reader.open cfg (Positions.encode cfg D) = some s ∧
+      Positions.Reader.reads cfg s rs = rs.map (fun r => (D.drop r.1).take r.2) := by
+  obtain ⟨s, h1, hc, hl⟩ := Positions.open_encode cfg (by decide) D
+  exact ⟨s, h1, Positions.reads_spec cfg (by decide) (by decide) (by decide) C07_bp4x_good D rs s 0 hc hl hr⟩
+
+/-- parametric form: any block size divisible by 8, any bit packer meeting the contract, and the
+reader's consistency invariant is re-established by every read -/
+theorem C07_position_reader_step (c : Cfg) (h8 : 8 ∣ c.B) (hB : 0 < c.B) (hS : 2 ≤ c.S)
+    (hP : GoodPacker c.B c.P) (D : List Nat) (s : Positions.Reader) (a : Nat)
+    (hc : Positions.Core c D s a) (hl : Positions.Loaded c D s a) (offset len : Nat)
+    (hrange : offset + len ≤ D.length) :
+    (s.read c offset len).1 = (D.drop offset).take len ∧
+    ∃ a', Positions.Core c D (s.read c offset len).2 a' ∧ Positions.Loaded c D (s.read c offset len).2 a' :=
+  Positions.read_spec c h8 hB hS hP D s a hc hl offset len hrange
+
+/-- **Positions after any seek program.**  Drive the postings cursor of a term through any program
+of `advance` / `seek`; for every document it lands on, ask the (one, stateful) position reader for
+`term_freq` values at the cursor's read offset (`position_offset + Σ freqs[..cur]`): the answers
+are, in order, exactly the position deltas of those documents — across skipped postings blocks
+(`tf_sum` of the skip entries) and across 128-value blocks of the position stream, with reads
+going forwards only as far as the program does. -/
+theorem C07_positions_after_seeks (docs : List Nat) (perDoc : List (List Nat))
+    (hv : ValidList docs (perDoc.map List.length)) (hT : ∀ d ∈ docs, d < cfg.T)
+    (hsum : BlockSumsFit cfg (perDoc.map List.length))
+    (ops : List Op) (hops : ∀ t, Op.seek t ∈ ops → t ≤ cfg.T) :
+    ∃ s, Positions.Reader.open cfg (Positions.encode cfg perDoc.flatten) = some s ∧
+      Positions.Reader.reads cfg s
+        (positionRequests cfg.T (run cfg .positions
+          (Cursor.init (chunkBlocks cfg .positions (docs.length / cfg.B) docs (perDoc.map List.length))) ops)) =
+      ((specIdxs docs ⟨0⟩ ops).filter (· < docs.length)).map (fun i => perDoc.getD i []) := by
+  have hrun := C07_seek_equiv .positions docs (perDoc.map List.length) hv hT hsum ops hops
+  have hobs : obsTfs .positions (perDoc.map List.length) = perDoc.map List.length := rfl
+  rw [hrun, hobs, specRun_eq_map, requests_of_spec cfg.T docs _ hT]
+  have hlen : perDoc.length = docs.length := by simpa using hv.len
+  obtain ⟨s, h1, hc, hl⟩ := Positions.open_encode cfg (by decide) perDoc.flatten
+  refine ⟨s, h1, ?_⟩
+  have hslice : ∀ i, i < docs.length →
+      (perDoc.flatten.drop ((perDoc.map List.length).take i).sum).take ((perDoc.map List.length).getD i 1) =
+        perDoc.getD i [] := by
+    intro i hi
+    have hi' : i < perDoc.length := by omega
+    have hg : (perDoc.map List.length).getD i 1 = (perDoc.getD i []).length := by
+      simp [List.getD_eq_getElem?_getD, List.getElem?_eq_getElem hi']
+    rw [hg, take_map_length_sum]
+    exact Positions.slice_flatten perDoc i
+  have hrange : ∀ r ∈ ((specIdxs docs ⟨0⟩ ops).filter (· < docs.length)).map
+      (fun i => (((perDoc.map List.length).take i).sum, (perDoc.map List.length).getD i 1)),
+      r.1 + r.2 ≤ perDoc.flatten.length := by
+    intro r hr
+    obtain ⟨i, hi, rfl⟩ := List.mem_map.mp hr
+    have hi' : i < docs.length := by simpa using (List.mem_filter.mp hi).2
+    have := hslice i hi'
+    have hl1 : ((perDoc.flatten.drop ((perDoc.map List.length).take i).sum).take
+        ((perDoc.map List.length).getD i 1)).length = (perDoc.getD i []).length := by rw [this]
+    have hg : (perDoc.map List.length).getD i 1 = (perDoc.getD i []).length := by
+      have hi'' : i < perDoc.length := by omega
+      simp [List.getD_eq_getElem?_getD, List.getElem?_eq_getElem hi'']
+    have hpos : 1 ≤ (perDoc.map List.length).getD i 1 := by
+      have hi'' : i < (perDoc.map List.length).length := by simp; omega
+      apply hv.tfpos
+      simp only [List.getD_eq_getElem?_getD, List.getElem?_eq_getElem hi'', Option.getD_some]
+      exact List.getElem_mem hi''
+    rw [List.length_take, List.length_drop, hg] at hl1
+    simp only
+    omega
+  rw [Positions.reads_spec cfg (by decide) (by decide) (by decide) C07_bp4x_good _ _ s 0 hc hl hrange]
+  simp only [List.map_map]
+  apply List.map_congr_left
+  intro i hi
+  exact hslice i (by simpa using (List.mem_filter.mp hi).2)
+
+/-- **From the term ordinal to the term's bytes.**  Write the terms of a field one after the
+other through the `FieldSerializer` (postings and positions appended back to back, one `TermInfo`
+each) and store the TermInfos in a `TermInfoStore`: the store's hypothesis of
+`C07_terminfo_roundtrip` holds by construction (ranges ordered and back to back), ordinal `n` returns
+the `n`-th TermInfo, and slicing the two files at its ranges returns exactly the `n`-th term's
+`doc_freq`, postings bytes and position bytes — for any number of terms, as long as the files stay
+below `2^56` bytes. -/
+theorem C07_field_serializer (ts : List Recorder.TermBytes)
+    (h1 : (ts.flatMap (·.postings)).length < 2 ^ 56) (h2 : (ts.flatMap (·.positions)).length < 2 ^ 56)
+    (h3 : ∀ t ∈ ts, t.docFreq < 2 ^ 56) (n : Nat) (hn : n < ts.length) :
+    TermInfoStore.GoodStore TermInfoStore.BLOCK_LEN (FieldSerializer.writeTerms ts).infos ∧
+    ∃ i, TermInfoStore.get TermInfoStore.BLOCK_LEN
+        (TermInfoStore.write TermInfoStore.BLOCK_LEN (FieldSerializer.writeTerms ts).infos) n = some i ∧
+      FieldSerializer.sliceTerm (FieldSerializer.writeTerms ts) i = ts[n] := by
+  have hg := FieldSerializer.writeTerms_goodStore TermInfoStore.BLOCK_LEN ts h1 h2 h3
+  have he := FieldSerializer.writeTerms_eq ts
+  have hlen : (FieldSerializer.writeTerms ts).infos.length = ts.length := by
+    rw [he.2.2, FieldSerializer.infosFrom_length]
+  refine ⟨hg, _, C07_terminfo_roundtrip _ (by decide) _ hg n (by rw [hlen]; exact hn), ?_⟩
+  exact FieldSerializer.slice_writeTerms ts n hn
+
+/-- **From the corpus to the files and back through the term ordinal.**  Index the analysed corpus
+(recorders), serialize the terms of the table in byte order through the `FieldSerializer`
+(`serialize_postings`: postings and positions appended back to back, one `TermInfo` per term into
+the `TermInfoStore`).  Then for the `n`-th term of the specification (the term dictionary maps the
+`n`-th term in byte order to ordinal `n`): the store returns a `TermInfo` whose `doc_freq` is the
+spec's, whose byte ranges cut out of the two files bytes that read back (`WithFreqsAndPositions`,
+eager decoder) as exactly the spec's postings of that term under the record option, and on whose
+postings range the lazy block cursor drains to exactly the spec's docs (and, when the option
+stores them, term frequencies). -/
+theorem C07_segment_end_to_end (o : RecOpt) (c : Corpus) (G : Recorder.GoodCorpus c)
+    (h1 : ((FieldSerializer.segmentTerms o c).flatMap (·.postings)).length < 2 ^ 56)
+    (h2 : ((FieldSerializer.segmentTerms o c).flatMap (·.positions)).length < 2 ^ 56)
+    (n : Nat) (hn : n < (invert c).terms.length) :
+    ∃ i, TermInfoStore.get TermInfoStore.BLOCK_LEN
+        (TermInfoStore.write TermInfoStore.BLOCK_LEN (FieldSerializer.segmentFiles o c).infos) n = some i ∧
+      i.docFreq = docFreq ((invert c).terms[n]).2 ∧
+      Recorder.readBack o (FieldSerializer.sliceTerm (FieldSerializer.segmentFiles o c) i) =
+        some (((invert c).terms[n]).2.map (project o)) ∧
+      (BlockPostings.drain cfg (i.docFreq / cfg.B + 2) (BlockPostings.open cfg o o i.docFreq
+        (FieldSerializer.sliceTerm (FieldSerializer.segmentFiles o c) i).postings)).1 =
+        ((invert c).terms[n]).2.map (·.doc) ∧
+      (hasFreq o = true →
+        (BlockPostings.drain cfg (i.docFreq / cfg.B + 2) (BlockPostings.open cfg o o i.docFreq
+          (FieldSerializer.sliceTerm (FieldSerializer.segmentFiles o c) i).postings)).2 =
+          ((invert c).terms[n]).2.map (·.tf)) := by
+  have hlen : (FieldSerializer.segmentTerms o c).length = (invert c).terms.length :=
+    FieldSerializer.segmentTerms_length o c
+  have hn' : n < (termsOf Gen.Postings.POSITION_GAP c).length := by
+    simpa [invert, invertWith] using hn
+  have hterm : (invert c).terms[n] = ((termsOf Gen.Postings.POSITION_GAP c)[n],
+      postingsOf Gen.Postings.POSITION_GAP c ((termsOf Gen.Postings.POSITION_GAP c)[n])) := by
+    simp [invert, invertWith]
+  obtain ⟨_, i, hget, hslice⟩ := C07_field_serializer (FieldSerializer.segmentTerms o c) h1 h2
+    (FieldSerializer.segmentTerms_docFreq o c G) n (by rw [hlen]; exact hn)
+  obtain ⟨r, hr, hts, hdf, hback⟩ := FieldSerializer.segmentTerms_get o c G n hn'
+  obtain ⟨r', hr', hlazy⟩ := FieldSerializer.segment_term_lazy o c G _ (List.getElem_mem hn')
+  have hrr : r' = r := Option.some.inj (hr'.symm.trans hr)
+  subst hrr
+  have hsl : FieldSerializer.sliceTerm (FieldSerializer.segmentFiles o c) i = Recorder.serializeTerm o r' := by
+    unfold FieldSerializer.segmentFiles; rw [hslice, hts]
+  have hidf : i.docFreq = (Recorder.serializeTerm o r').docFreq := by
+    rw [← hsl]; rfl
+  refine ⟨i, hget, ?_, ?_, ?_, fun ho => ?_⟩
+  · rw [hidf, hdf, hterm]; rfl
+  · rw [hsl, hback, hterm]
+  · rw [hsl, hidf, hlazy, hterm]
+  · obtain ⟨r'', hr'', hlazytf⟩ := FieldSerializer.segment_term_lazy_tf o ho c G _ (List.getElem_mem hn')
+    have hrr' : r'' = r' := Option.some.inj (hr''.symm.trans hr)
+    subst hrr'
+    rw [hsl, hidf, hlazytf, hterm]
+
+/-! ### the recorders' byte log: `ExpUnrolledLinkedList` in the shared arena -/
+
+/-- **The byte log round-trips.**  Starting from an empty `ExpUnrolledLinkedList`, after any sequence
+of `extend_from_slice` calls — blocks of 8, 16, …, 32768, 32768, … bytes allocated from the arena
+and linked through the 4-byte next pointer written behind each full block — `read_to_end` returns
+exactly the concatenation of everything written (the arena staying within 32-bit addresses).
+More generally a list holding `bs` holds `bs ++ buf` after `extend_from_slice(buf)`. -/
+theorem C07_expull_roundtrip (a : Expull.Arena) (e : Expull.Eull) (bs buf : List Nat)
+    (h : Expull.Rep a e bs) (hfit : (Expull.extendFromSlice e a buf).2.len ≤ 2 ^ 32) :
+    Expull.Rep a Expull.Eull.default [] ∧
+    Expull.Rep (Expull.extendFromSlice e a buf).2 (Expull.extendFromSlice e a buf).1 (bs ++ buf) ∧
+    Expull.readToEnd (Expull.extendFromSlice e a buf).1 (Expull.extendFromSlice e a buf).2 = bs ++ buf ∧
+    Expull.readToEnd e a = bs := by
+  have h2 := Expull.extendFromSlice_rep e a buf bs h hfit
+  exact ⟨Or.inl ⟨rfl, rfl⟩, h2, Expull.readToEnd_rep _ _ _ h2, Expull.readToEnd_rep _ _ _ h⟩
+
+/-- **Lists sharing the arena do not disturb each other.**  A list's content depends only on the
+bytes of its own blocks (frame); and appending to another list touches, among the bytes allocated
+so far, only the free part and the next-pointer slot of *that* list's current block — so every
+list that shares no address with it still reads back the same bytes afterwards. -/
+theorem C07_expull_separation (a : Expull.Arena) (e1 : Expull.Eull) (full : List Expull.Block) (la : Nat)
+    (ld : List Nat) (g : Expull.Good a e1 full la ld) (e2 : Expull.Eull) (buf : List Nat)
+    (hdisj : ∀ x, Expull.Owned e1 full la x → ¬ Expull.Free e2 x) :
+    Expull.readToEnd e1 (Expull.extendFromSlice e2 a buf).2 = Expull.readToEnd e1 a ∧
+    (∀ a' : Expull.Arena, (∀ x, Expull.Owned e1 full la x → a'.mem x = a.mem x) → a.len ≤ a'.len →
+      Expull.readToEnd e1 a' = Expull.readToEnd e1 a) ∧
+    (∀ x, x < a.len → ¬ Expull.Free e2 x → (Expull.extendFromSlice e2 a buf).2.mem x = a.mem x) := by
+  refine ⟨?_, fun a' hm hl => ?_, fun x hx hf => Expull.extendLoop_footprint _ e2 a buf x hx hf⟩
+  · rw [Expull.readToEnd_good _ _ _ _ _ (Expull.other_list_kept a e1 full la ld g e2 buf hdisj),
+      Expull.readToEnd_good _ _ _ _ _ g]
+  · rw [Expull.readToEnd_good _ _ _ _ _ (Expull.good_congr a a' e1 full la ld hm hl g),
+      Expull.readToEnd_good _ _ _ _ _ g]
+
+/-- **The whole writer.**  `n` byte logs (one per term) start empty in an empty arena; after *any*
+interleaving of `extend_from_slice` calls on them — the indexing loop appending to whichever term
+the next token belongs to — `read_to_end` of every list returns exactly the bytes written to that
+list, in order.  (Invariant: each list holds its bytes in its own blocks, and no two lists share
+an address; a write grows a list only into freshly allocated space.) -/
+theorem C07_expull_writer (n : Nat) (ws : List (Nat × List Nat)) (hw : ∀ w ∈ ws, w.1 < n)
+    (hfit : (Expull.runWrites (List.replicate n Expull.Eull.default) Expull.Arena.empty ws).2.len ≤ 2 ^ 32)
+    (j : Nat) (hj : j < n) :
+    Expull.readToEnd
+        ((Expull.runWrites (List.replicate n Expull.Eull.default) Expull.Arena.empty ws).1.getD j Expull.Eull.default)
+        (Expull.runWrites (List.replicate n Expull.Eull.default) Expull.Arena.empty ws).2 =
+      (ws.filter (fun w => w.1 = j)).flatMap (·.2) := by
+  have h0 : Expull.Inv Expull.Arena.empty (List.replicate n Expull.Eull.default) (fun _ => none) (fun _ => []) := by
+    refine ⟨fun k hk => ?_, fun k l _ _ _ x hx => by simp [Expull.OwnedV] at hx⟩
+    simp only [List.length_replicate] at hk
+    simp [Expull.RepV, List.getD_eq_getElem?_getD, hk]
+  obtain ⟨hl, vs', hinv⟩ := Expull.runWrites_inv ws _ _ _ _ h0 (by simpa using hw) hfit
+  have := hinv.1 j (by rw [hl]; simpa using hj)
+  have hr := Expull.readToEnd_rep _ _ _ (Expull.repV_rep _ _ _ _ this)
+  simpa using hr
 
 /-! ### field norms -/
 
@@ -314,6 +764,7 @@ example : VInt.serializeU32 Gen.Postings.VINT32_LADDER Gen.Postings.VINT32_LAST_
     Gen.Postings.VINT32_RADIX Gen.Postings.VINT32_STOP_BIT 2097152 = [0, 0, 0, 129] ∧
     VInt.readU32 Gen.Postings.VINT_STOP_BIT Gen.Postings.VINT32_MAX_LEN [0, 0, 0, 129, 9] = some (2097152, 4) := by
   decide
+example : VInt.packedBytes 2097152#32 = [0, 0, 0, 129] ∧ VInt.packedBytes 300#32 = [44, 130] := by decide
 example : ValidList [0, 3, 4, 1000, 2147483646] [1, 2, 1, 300, 7] :=
   ⟨by decide, by decide, by decide, by decide⟩
 example : 0 < cfg.B ∧ 2 ≤ cfg.S ∧ cfg.B = 8 ^ 2 * 2 ∧ cfg.T = 2 ^ 31 - 1 := by decide
@@ -341,6 +792,43 @@ example : Recorder.GoodCorpus [[[⟨[97], 0, 1⟩]], []] := by
     simp [postingsOf, postingsFrom, docOccs, docOccsFrom, indexValue] at hp
     subst hp; simp
   · simp [postingsOf, postingsFrom, docOccs, docOccsFrom, indexValue, h] at hp
+example : JsonPositions.occs 1 [⟨[97], true, [⟨[1], 0, 1⟩, ⟨[2], 1, 1⟩]⟩, ⟨[98], true, [⟨[3], 0, 1⟩]⟩,
+    ⟨[97], false, [⟨[9], 0, 1⟩]⟩, ⟨[97], true, [⟨[1], 0, 1⟩]⟩] =
+    [⟨[97], true, [1], 0⟩, ⟨[97], true, [2], 1⟩, ⟨[98], true, [3], 0⟩, ⟨[97], false, [9], 0⟩, ⟨[97], true, [1], 3⟩] := by
+  decide
+example : Recorder.permuted [[[⟨[97], 0, 1⟩]], [], [[⟨[98], 0, 1⟩]]] (fun j => 2 - j) =
+    [[[⟨[98], 0, 1⟩]], [], [[⟨[97], 0, 1⟩]]] ∧
+    (∀ i, i < 3 → (fun d => 2 - d) i < 3 ∧ (fun j => 2 - j) ((fun d => 2 - d) i) = i) := by decide
+example : (FieldSerializer.segmentFiles .freqs [[[⟨[97], 0, 1⟩, ⟨[98], 1, 1⟩]], [[⟨[97], 0, 1⟩]]]).infos.length = 2 ∧
+    (invert [[[⟨[97], 0, 1⟩, ⟨[98], 1, 1⟩]], [[⟨[97], 0, 1⟩]]]).terms.length = 2 := by decide +kernel
+example : ((BlockPostings.open cfg .freqs .freqs 3 [129, 132, 132, 130, 129, 135]).seek cfg 2).1.freqs.getD
+    ((BlockPostings.open cfg .freqs .freqs 3 [129, 132, 132, 130, 129, 135]).seek cfg 2).2 0 = 1 ∧
+    encodeTerm cfg .freqs [1, 5, 9] [2, 1, 7] = [129, 132, 132, 130, 129, 135] := by decide +kernel
+example : (Expull.runWrites [Expull.Eull.default, Expull.Eull.default] Expull.Arena.empty
+      [(0, [1, 2, 3]), (1, [9]), (0, [4, 5, 6, 7, 8, 9, 10])]).1.map
+    (fun e => Expull.readToEnd e (Expull.runWrites [Expull.Eull.default, Expull.Eull.default] Expull.Arena.empty
+      [(0, [1, 2, 3]), (1, [9]), (0, [4, 5, 6, 7, 8, 9, 10])]).2) = [[1, 2, 3, 4, 5, 6, 7, 8, 9, 10], [9]] := by
+  decide +kernel
+example : (Expull.runWrites (List.replicate 2 Expull.Eull.default) Expull.Arena.empty
+      [(0, [1, 2, 3]), (1, [9]), (0, [4, 5, 6, 7, 8, 9, 10])]).2.len ≤ 2 ^ 32 ∧
+    (∀ w ∈ [(0, [1, 2, 3]), (1, [9]), (0, [4, 5, 6, 7, 8, 9, 10])], w.1 < 2) := by decide +kernel
+example : okBlockOps cfg.B cfg.T (List.range 130) (130 / cfg.B + 2) 0 [.advance, .seek 129, .seek 5] ∧
+    specBlockOps cfg.B cfg.T (List.range 130) (130 / cfg.B + 2) 0 [.advance, .seek 129, .seek 5] = [128, 129, 128] :=
+  ⟨⟨by decide +kernel, by decide +kernel, by decide +kernel, trivial⟩, by decide +kernel⟩
+example : Recorder.sortPostings ([⟨0, 1, [0]⟩, ⟨1, 2, [0, 2]⟩, ⟨2, 1, [4]⟩].map (Recorder.remapPosting (fun d => 2 - d))) =
+    [⟨0, 1, [4]⟩, ⟨1, 2, [0, 2]⟩, ⟨2, 1, [0]⟩] := by decide
+example : BlockPostings.seekAll cfg (BlockPostings.open cfg .basic .basic 3 [129, 132, 132]) [0, 2, 9, 10] =
+    [1, 5, 9, cfg.T] ∧ [0, 2, 9, 10].Pairwise (· ≤ ·) ∧ (∀ d ∈ [1, 5, 9], d < cfg.T) := by decide +kernel
+example : (BlockPostings.open cfg .basic .basic 3 [129, 132, 132]).skip.skipInfo = .basic ∧
+    (BlockPostings.open cfg .basic .basic 3 [129, 132, 132]).freqOpt = freqOptOf .basic .basic ∧
+    ValidList [1, 5, 9] [1, 1, 1] := by
+  refine ⟨by decide, by decide, ⟨by decide, by decide, by decide, by decide⟩⟩
+example : ∀ r ∈ [(2, 2), (0, 1), (1, 3)], r.1 + r.2 ≤ ([5, 0, 7, 9] : List Nat).length := by decide
+example : ValidList [0, 3, 9] (([[1, 2], [5], [0, 0, 7]] : List (List Nat)).map List.length) :=
+  ⟨by decide, by decide, by decide, by decide⟩
+example : (FieldSerializer.writeTerms [⟨2, [1, 2, 3], [9]⟩, ⟨1, [7], []⟩]).infos =
+    [⟨2, 0, 3, 0, 1⟩, ⟨1, 3, 4, 1, 1⟩] := by decide
+example : hasFreq .freqs = true ∧ ValidList [2, 4] [3, 1] := ⟨rfl, by decide, by decide, by decide, by decide⟩
 example : 0 < TermInfoStore.BLOCK_LEN ∧ TermInfoStore.BLOCK_LEN = 256 := by decide
 theorem C07_terminfo_example_good :
     TermInfoStore.GoodStore 2 [⟨512, 51, 57, 110, 134⟩, ⟨3, 57, 60, 134, 134⟩, ⟨9, 70, 100, 140, 150⟩] := by
